@@ -289,6 +289,11 @@ def gen_fstring_literal(cs, gen, restrict):
     body = ''
     for _ in range(1 + cs.small(4)):
         k = cs.choice(6)
+        if k < 4 and cs.bool(20) and not (restrict is not None and restrict.get('no_backslash')):
+            # a backslash directly in front of a brace: literal text in a raw f-string (and an unknown escape otherwise),
+            # never something that hides the brace
+            body += '\\'
+            gen.feat('fstring_backslash_before_brace')
         if k < 3:
             body += gen_field(cs, gen, q)
             gen.feat('fstring_field')
